@@ -262,3 +262,19 @@ Definition grows (setup body : list stmt) : Prop :=
 
 Lemma clone_grows : grows clone_setup clone_body.
 Proof. exists 1; do 4 eexists; repeat (split; [vm_compute; reflexivity|]); vm_compute; lia. Qed.
+
+(* the same divergence reads out of bounds: a = [1]; c = [2]; c = a   while True: c.append(5); a[1]; a.remove(5)
+   Python: a is c, a[1] = 5.  Firmware: a still has one cell. *)
+Definition clone_oob_body : list stmt := [LAppend 1 5; LGet 0 1; LRemove 0 5]%Z.
+
+Lemma clone_out_of_bounds :
+  exists n pst, run_py clone_setup clone_oob_body n = POk pst /\ run_fw clone_setup clone_oob_body n = Unsafe OutOfBounds.
+Proof. exists 2. eexists. split; vm_compute; reflexivity. Qed.
+
+Definition clone_setup_decls : list stmt := [LDeclLit 0 [1]; LDeclLit 1 [2]]%Z.
+Definition clone_loop : list stmt := [LAssignVar 1 0; LAppend 1 5; LGet 1 (-1); LRemove 0 1; LAppend 0 1]%Z.
+
+Lemma clone_guard_witness :
+  owner_or_clone_seq clone_setup_decls [clone_loop; clone_loop] = true /\
+  single_owner_seq clone_setup_decls [clone_loop; clone_loop] = false.
+Proof. split; vm_compute; reflexivity. Qed.
